@@ -1203,6 +1203,7 @@ def run(ctx: Ctx) -> None:
 # ---------------------------------------------------------------------------
 _DBF = "algos/database.py"
 WITNESSES = [
+    {"name": "seeded-C11-10", "file": "algos/optimization_problem.py", "old": "\n            for name, functions in zip(\n                [problem._CONSTRAINTS_GROUP, problem._OBSERVABLES_GROUP],\n                [problem.constraints, problem.observables],\n            ):\n                if name in h5file:\n                    group = get_hdf5_group(h5file, name)\n                    for function_name in group:\n                        functions.append(\n                            MDOFunction.init_from_dict_repr(\n                                **convert_h5_group_to_dict(group, function_name)\n                            )\n                        )\n\n            is_mono_objective = False\n            with contextlib.suppress(ValueError):\n                # Sometimes the dimension of the problem cannot be determined.\n                is_mono_objective = problem.is_mono_objective\n\n            if not is_mono_objective and problem._SOLUTION_GROUP in h5file:\n                pareto_front = (\n                    ParetoFront.from_optimization_problem(problem)\n                    if problem.solution.is_feasible\n                    else None\n                )\n                problem.solution = MultiObjectiveOptimizationResult(\n                    **problem.solution.__dict__, pareto_front=pareto_front\n                )\n\n", "new": "\n            is_mono_objective = False\n            with contextlib.suppress(ValueError):\n                # Sometimes the dimension of the problem cannot be determined.\n                is_mono_objective = problem.is_mono_objective\n\n            if not is_mono_objective and problem._SOLUTION_GROUP in h5file:\n                pareto_front = (\n                    ParetoFront.from_optimization_problem(problem)\n                    if problem.solution.is_feasible\n                    else None\n                )\n                problem.solution = MultiObjectiveOptimizationResult(\n                    **problem.solution.__dict__, pareto_front=pareto_front\n                )\n\n            for name, functions in zip(\n                [problem._CONSTRAINTS_GROUP, problem._OBSERVABLES_GROUP],\n                [problem.constraints, problem.observables],\n            ):\n                if name in h5file:\n                    group = get_hdf5_group(h5file, name)\n                    for function_name in group:\n                        functions.append(\n                            MDOFunction.init_from_dict_repr(\n                                **convert_h5_group_to_dict(group, function_name)\n                            )\n                        )\n\n", "expect": "11.5", "note": "OptimizationProblem.from_hdf rebuilds the multi-objective solution (Pareto front"},
     {"name": "csv-cursor-starts-at-zero", "file": "algos/design_space.py", "old": "        k = start_read\n", "new": "        k = 0\n", "expect": "11.1"},
     {"name": "design-space-values-all-or-nothing", "file": DS, "old": "                value = self.__current_value.get(name)\n                if value is not None:\n                    var_grp.create_dataset(self.VALUE_GROUP, data=self.__to_real(value))", "new": "                if self.__has_current_value:\n                    value = self.__current_value[name]\n                    var_grp.create_dataset(self.VALUE_GROUP, data=self.__to_real(value))", "expect": "11.1"},
     {"name": "reader-other-group", "file": HD, "old": "            keys_group = h5file[\"k\"]", "new": "            keys_group = h5file[\"keys\"]", "expect": "11.1"},
